@@ -87,6 +87,89 @@ func c01(repo string, out *fg.Out) error {
 		return fd, nil
 	}
 
+	// ---- the parser type carries no state: struct fields of LineProtocolParser (must be none for the
+	// model, a pure function of the input, to describe a parser instance shared by all request goroutines)
+	var parserFields []string
+	foundType := false
+	for _, d := range lp.AST.Decls {
+		gd, ok := d.(*ast.GenDecl)
+		if !ok || gd.Tok != token.TYPE {
+			continue
+		}
+		for _, sp := range gd.Specs {
+			ts := sp.(*ast.TypeSpec)
+			if ts.Name.Name != "LineProtocolParser" {
+				continue
+			}
+			st, ok := ts.Type.(*ast.StructType)
+			if !ok {
+				return fmt.Errorf("LineProtocolParser is not a struct type")
+			}
+			foundType = true
+			for _, f := range st.Fields.List {
+				if len(f.Names) == 0 {
+					parserFields = append(parserFields, lp.Text(f.Type))
+				}
+				for _, n := range f.Names {
+					parserFields = append(parserFields, n.Name)
+				}
+			}
+		}
+	}
+	if !foundType {
+		return fmt.Errorf("type LineProtocolParser not found")
+	}
+	// assignments through the receiver inside any method (p.x = …, p.x[i] = …, p.x++ …)
+	var receiverWrites []string
+	for _, d := range lp.AST.Decls {
+		fd, ok := d.(*ast.FuncDecl)
+		if !ok || fd.Recv == nil || fd.Body == nil || len(fd.Recv.List) != 1 || len(fd.Recv.List[0].Names) != 1 {
+			continue
+		}
+		rt := fd.Recv.List[0].Type
+		if st, ok := rt.(*ast.StarExpr); ok {
+			rt = st.X
+		}
+		if !isIdent(rt, "LineProtocolParser") {
+			continue
+		}
+		recv := fd.Recv.List[0].Names[0].Name
+		rooted := func(e ast.Expr) bool {
+			for {
+				switch x := e.(type) {
+				case *ast.SelectorExpr:
+					if isIdent(x.X, recv) {
+						return true
+					}
+					e = x.X
+				case *ast.IndexExpr:
+					e = x.X
+				case *ast.StarExpr:
+					e = x.X
+				case *ast.ParenExpr:
+					e = x.X
+				default:
+					return false
+				}
+			}
+		}
+		ast.Inspect(fd.Body, func(m ast.Node) bool {
+			switch x := m.(type) {
+			case *ast.AssignStmt:
+				for _, l := range x.Lhs {
+					if rooted(l) {
+						receiverWrites = append(receiverWrites, fd.Name.Name+":"+lp.Text(l))
+					}
+				}
+			case *ast.IncDecStmt:
+				if rooted(x.X) {
+					receiverWrites = append(receiverWrites, fd.Name.Name+":"+lp.Text(x.X))
+				}
+			}
+			return true
+		})
+	}
+
 	// ---- unescape (names) and, if present, unescapeString (quoted string field values)
 	escSwitch := func(name string) ([]int, int, error) {
 		un, err := fn("LineProtocolParser", name)
@@ -524,6 +607,15 @@ func c01(repo string, out *fg.Out) error {
 		return fmt.Errorf("validMeasurementName regexp literal not found")
 	}
 
+	// ---- the handler shares one parser instance among all requests
+	nh := api.FuncDecl("", "NewLineProtocolHandler")
+	squash := func(t string) string { return strings.Join(strings.Fields(t), "") }
+	shares := nh != nil && strings.Contains(squash(api.Text(nh)), "parser:ingest.NewLineProtocolParser()") &&
+		strings.Contains(squash(api.Text(hw)), "h.parser.ParseBatchWithPrecision(body,precision)")
+	if !shares {
+		return fmt.Errorf("handler: expected `parser: ingest.NewLineProtocolParser()` in NewLineProtocolHandler and `h.parser.ParseBatchWithPrecision(body, precision)` in handleWrite")
+	}
+
 	// ---- emit
 	w := &out.Lean
 	nat := func(xs []int) string {
@@ -534,6 +626,15 @@ func c01(repo string, out *fg.Out) error {
 		return "[" + strings.Join(ss, ", ") + "]"
 	}
 	fmt.Fprintf(w, "namespace Arc.Generated.C01\n")
+	lstr := func(xs []string) string {
+		ss := make([]string, len(xs))
+		for i, x := range xs {
+			ss[i] = fg.LeanStr(x)
+		}
+		return "[" + strings.Join(ss, ", ") + "]"
+	}
+	fmt.Fprintf(w, "/-- struct fields of LineProtocolParser (the handler shares ONE instance among all request goroutines) -/\ndef parserFields : List String := %s\n", lstr(parserFields))
+	fmt.Fprintf(w, "/-- `method:lvalue` of every assignment through the receiver inside a LineProtocolParser method -/\ndef parserReceiverWrites : List String := %s\n", lstr(receiverWrites))
 	fmt.Fprintf(w, "/-- bytes of the `case` list of unescape's inner switch (source order) -/\ndef unescapeSet : List Nat := %s\n", nat(unescapeSet))
 	fmt.Fprintf(w, "/-- escape set applied to the inside of a quoted string field value (unescape's own set, or unescapeString's) -/\ndef stringUnescapeSet : List Nat := %s\n", nat(stringSet))
 	fmt.Fprintf(w, "/-- true when the key/value separator is located by the escape-aware indexUnescaped, false for bytes.IndexByte -/\ndef kvCutEscapeAware : Bool := %v\n", kvAware == 1)
@@ -567,6 +668,8 @@ func c01(repo string, out *fg.Out) error {
 	fmt.Fprintf(w, "def measurementRegex : String := %s\n", fg.LeanStr(regex))
 	fmt.Fprintf(w, "end Arc.Generated.C01\n")
 
+	out.JSON["parser_fields"] = parserFields
+	out.JSON["parser_receiver_writes"] = receiverWrites
 	out.JSON["unescape_set"] = unescapeSet
 	out.JSON["string_unescape_set"] = stringSet
 	out.JSON["kv_cut_escape_aware"] = kvAware == 1
